@@ -25,7 +25,7 @@ func verifPar(fs ...func()) {
 }
 
 func VH_C19_replaycache() {
-	for rep := 0; rep < verifRepeat(150); rep++ {
+	for rep := 0; rep < verifRepeat(25); rep++ {
 		verifBody_C19_replaycache()
 	}
 }
@@ -33,13 +33,42 @@ func VH_C19_replaycache() {
 func verifBody_C19_replaycache() {
 	verifRaceDetect(true)
 	verifSched(1)
+	if verifNative() {
+		// natively the window is a copy of the history: make the history long and keep adding
+		// while it is resized (growing and shrinking)
+		c := NewReplayCache(4000)
+		for i := 0; i < 3000; i++ {
+			c.Add("a", []byte{9, byte(i >> 16), byte(i >> 8), byte(i), 0, 0, 0, 0})
+		}
+		added := make([][]byte, 400)
+		for i := range added {
+			added[i] = []byte{7, byte(i >> 8), byte(i), 1, 2, 3, 4, 5}
+		}
+		fresh := make([]bool, len(added))
+		verifPar(
+			func() {
+				for i, s := range added {
+					fresh[i] = c.Add("a", s)
+				}
+			},
+			func() { c.Resize(9000) },
+		)
+		for i, s := range added {
+			verifAssert("C19.replaycache.added-during-resize-is-remembered", !fresh[i] || !c.Add("a", s))
+		}
+		verifReach("C19.replaycache.done", true)
+		return
+	}
 	c := NewReplayCache(2)
 	salt1, salt2 := []byte{1, 2, 3, 4}, []byte{5, 6, 7, 8}
+	var f1, f2 bool
 	verifPar(
-		func() { c.Add("a", salt1) },
-		func() { c.Add("a", salt2) },
+		func() { f1 = c.Add("a", salt1) },
+		func() { f2 = c.Add("a", salt2) },
 		func() { c.Resize(3) },
 	)
+	// growing never forgets: both are remembered afterwards
+	verifAssert("C19.replaycache.added-during-resize-is-remembered", verifAll(f1, f2, !c.Add("a", salt1), !c.Add("a", salt2)))
 	verifReach("C19.replaycache.done", true)
 }
 
